@@ -1,13 +1,13 @@
 #!/bin/bash
-# usage: ./alt_setup.sh  -- (re)create an alternate checkout of /repo's HEAD at /tmp/alt/repo and a copy of /verif at
-# /tmp/vwork whose shadow manifest compiles that checkout: seeded changes can then be applied and checked there
-# (VERIF_REPO=/tmp/alt/repo /tmp/vwork/seedtest.sh ..., /tmp/vwork/selftest_sensitivity.sh) while /repo stays clean.
+# usage: [ALT=<suffix>] ./alt_setup.sh  -- (re)create an alternate checkout of /repo's HEAD at /tmp/alt${ALT:-}/repo and a copy of /verif at
+# /tmp/vwork${ALT:-} whose shadow manifest compiles that checkout: seeded changes can then be applied and checked there
+# (VERIF_REPO=/tmp/alt${ALT:-}/repo /tmp/vwork${ALT:-}/seedtest.sh ..., /tmp/vwork${ALT:-}/selftest_sensitivity.sh) while /repo stays clean.
 set -u
-mkdir -p /tmp/alt /tmp/seed
-if [ ! -d /tmp/alt/repo ]; then git -C /repo worktree prune; git -C /repo worktree add --detach /tmp/alt/repo HEAD || exit 2; fi
-git -C /tmp/alt/repo checkout -q --detach "$(git -C /repo rev-parse HEAD)" && git -C /tmp/alt/repo checkout -- .
-first=0; [ -d /tmp/vwork/sim/target ] || first=1
-rsync -a --delete --exclude .git --exclude 'sim/target*' --exclude replays --exclude 'sim/.lock*' /verif/ /tmp/vwork/
-if [ $first -eq 1 ]; then cp -r /verif/sim/target /tmp/vwork/sim/target; cp -r /verif/sim/target-shuttle /tmp/vwork/sim/target-shuttle; fi
-sed -i 's#"/repo/src/lib.rs"#"/tmp/alt/repo/src/lib.rs"#' /tmp/vwork/sim/shadow/Cargo.toml
-echo "alt ready: VERIF_REPO=/tmp/alt/repo /tmp/vwork/..."
+mkdir -p /tmp/alt${ALT:-} /tmp/seed
+if [ ! -d /tmp/alt${ALT:-}/repo ]; then git -C /repo worktree prune; git -C /repo worktree add --detach /tmp/alt${ALT:-}/repo HEAD || exit 2; fi
+git -C /tmp/alt${ALT:-}/repo checkout -q --detach "$(git -C /repo rev-parse HEAD)" && git -C /tmp/alt${ALT:-}/repo checkout -- .
+first=0; [ -d /tmp/vwork${ALT:-}/sim/target ] || first=1
+rsync -a --delete --exclude .git --exclude 'sim/target*' --exclude replays --exclude 'sim/.lock*' /verif/ /tmp/vwork${ALT:-}/
+if [ $first -eq 1 ]; then cp -r /verif/sim/target /tmp/vwork${ALT:-}/sim/target; cp -r /verif/sim/target-shuttle /tmp/vwork${ALT:-}/sim/target-shuttle; fi
+sed -i "s#\"/repo/src/lib.rs\"#\"/tmp/alt${ALT:-}/repo/src/lib.rs\"#" /tmp/vwork${ALT:-}/sim/shadow/Cargo.toml
+echo "alt ready: VERIF_REPO=/tmp/alt${ALT:-}/repo /tmp/vwork${ALT:-}/..."
